@@ -253,6 +253,11 @@ def eq_routes(ctx, cr):
             if decl == "rules::values::WithinRange::is_within":
                 return [(("sym", "WITHIN"), mon | {("range",)})]
             if decl in ("std::cmp::PartialEq::eq",):
+                # equality of two Ordering values (`compare_values(..)? == Ordering::Equal`) is the kernel's result being read, not a
+                # comparison of the operands: decided concretely
+                vals = [a.deref_val(st, x) for x in args]
+                if all(v is not None and v[0] == "enum" and str(v[1]).endswith("cmp::Ordering") for v in vals):
+                    return [(("bool", vals[0][2] == vals[1][2]), mon)]
                 roots = tuple(sorted(str(deep_root(a, st, x)) for x in args))
                 return [(("sym", "STREQ"), mon | {("streq", roots)})]
             if path.endswith("IndexMap::get"):
